@@ -164,6 +164,12 @@ type Options struct {
 	SSTNoDedupe bool `json:"sst_no_dedupe,omitempty"`
 	// SSTFiller are extra, unused plain entries of the shared string table.
 	SSTFiller []string `json:"sst_filler,omitempty"`
+	// SSTPart is the part name of the shared string table; "" selects the
+	// conventional xl/sharedStrings.xml. Like every part other than the package
+	// root relationships it is found through its relationship (type
+	// …/relationships/sharedStrings), not by name (Part 2, 8.3; Part 1, 12.3.15
+	// Shared String Table Part).
+	SSTPart string `json:"sst_part,omitempty"`
 	// RelSeed != 0 permutes the relationship ids and the order of the
 	// <Relationship> elements of workbook.xml.rels.
 	RelSeed    uint64 `json:"rel_seed,omitempty"`
@@ -249,6 +255,13 @@ func Ref(col, row int) string { return ColName(col) + strconv.Itoa(row+1) }
 // RangeRef is "A1:B2".
 func (m Merge) RangeRef() string { return Ref(m.C1, m.R1) + ":" + Ref(m.C2, m.R2) }
 
+func (w Workbook) sstPart() string {
+	if w.Opt.SSTPart != "" {
+		return w.Opt.SSTPart
+	}
+	return "xl/sharedStrings.xml"
+}
+
 // PartName returns the part name of sheet i (0-based position in workbook order).
 func (w Workbook) PartName(i int) string {
 	if p := w.Sheets[i].Part; p != "" {
@@ -314,6 +327,12 @@ func (w Workbook) Validate() error {
 		if err := s.validate(p); err != nil {
 			return fmt.Errorf("xlsxw: sheet %d (%s): %v", i, s.Name, err)
 		}
+	}
+	if w.Opt.SSTPart != "" {
+		if err := validPart(w.Opt.SSTPart); err != nil || parts[strings.ToLower(w.Opt.SSTPart)] {
+			return fmt.Errorf("xlsxw: illegal or duplicate shared string part name %q", w.Opt.SSTPart)
+		}
+		parts[strings.ToLower(w.Opt.SSTPart)] = true
 	}
 	for i, d := range w.Decoys {
 		if d.Part == "" || parts[strings.ToLower(d.Part)] {
@@ -786,7 +805,7 @@ func (w Workbook) Members() ([]zipw.Member, error) {
 
 	hasSST := len(b.sst) > 0
 	if hasSST {
-		rels = append(rels, rel{ids[n], relBase + "sharedStrings", "sharedStrings.xml"})
+		rels = append(rels, rel{ids[n], relBase + "sharedStrings", relTarget("xl", w.sstPart(), false)})
 	}
 	if !w.Opt.NoStyles {
 		rels = append(rels, rel{ids[n+1], relBase + "styles", "styles.xml"})
@@ -837,8 +856,8 @@ func (w Workbook) Members() ([]zipw.Member, error) {
 		ov("xl/styles.xml", ctBase+"styles+xml")
 	}
 	if hasSST { // the shared string table part is optional (18.4.9 sst); Excel omits it when no cell uses it
-		add("xl/sharedStrings.xml", b.sstXML())
-		ov("xl/sharedStrings.xml", ctBase+"sharedStrings+xml")
+		add(w.sstPart(), b.sstXML())
+		ov(w.sstPart(), ctBase+"sharedStrings+xml")
 	}
 	if !w.Opt.NoDocProps {
 		add("docProps/core.xml", []byte(xmlDecl+`<cp:coreProperties xmlns:cp="http://schemas.openxmlformats.org/package/2006/metadata/core-properties" xmlns:dc="http://purl.org/dc/elements/1.1/" xmlns:dcterms="http://purl.org/dc/terms/" xmlns:xsi="http://www.w3.org/2001/XMLSchema-instance"><dc:title>Generated workbook</dc:title><dc:creator>xlsxw</dc:creator></cp:coreProperties>`))
